@@ -15,7 +15,7 @@ var c06Pool = []string{
 	"0.0", "-0.0", "1.0", "2.0", "0.5", "100000.0", "1000000.0", "1e6", "1e21", "9007199254740992.0", "9223372036854775807.0",
 	"-1.0", "(0.0/0.0)", "(1.0/0.0)",
 	`""`, `"0"`, `"1"`, `"-1"`, `"1000000"`, `"1e6"`, `"1.0"`, `"0x10"`, `"010"`, `"-010"`, `"0b11"`, `"0o17"`, `"08"`, `" 1"`, `"1 "`, `"abc"`, `"true"`, `"false"`, `"nil"`,
-	`"9007199254740993"`, `"9007199254740992"`, `"0.5"`, `"+1"`, `"1_000"`, `"Inf"`, `"NaN"`, `"1e400"`,
+	`"9007199254740993"`, `"9007199254740992"`, `"0.5"`, `"+1"`, `"1_000"`, `"Inf"`, `"NaN"`, `"1e400"`, `"0x1p4"`, `"1_0"`, `"9223372036854775808"`, `"1e-400"`, `"inf"`, `"Infinity"`, `"16.000000000000000001"`,
 	"[]", "[1]", "[1, 2]", "[[1]]", "[1.0]", `["1"]`, "[nil]", "{}", `{"a": 1}`, `{"a": 1.0}`, `{"a": [1]}`, `{"b": 1}`, "[true]", "[0]",
 }
 
